@@ -477,6 +477,10 @@ template<class T, size_t Degree, size_t NbModuli> bool poly<T, Degree, NbModuli>
     value_type t1 = u0 - u1;
     t0 -= (t0 >= 2*p) ? (2*p) : 0;
     t1 += ((typename std::make_signed<value_type>::type) t1 < 0) ? (2*p) : 0;
+#ifdef NTT_STRICTMOD
+    t0 -= (t0 >= p) ? p : 0;
+    t1 -= (t1 >= p) ? p : 0;
+#endif
     x[0] = t0;
     x[1] = t1;
     return true;
